@@ -127,6 +127,35 @@ def depth(val, limit=6):
     return best
 
 
+def leaves(val, acc, _depth=0):
+    for a in val:
+        k = a[0]
+        if k in ('list', 'set') and _depth < 8:
+            leaves(a[1], acc, _depth + 1)
+        elif k == 'seq' and _depth < 8:
+            for e in a[2]:
+                leaves(e, acc, _depth + 1)
+        elif k == 'dict' and _depth < 8:
+            leaves(a[2], acc, _depth + 1)
+        elif k == 'kdict' and _depth < 8:
+            for _, e in a[1]:
+                leaves(e, acc, _depth + 1)
+        else:
+            acc.add(a)
+    return acc
+
+
+def flatten_deep(val):
+    """containers nested deeper than the analysis follows become one list of everything found inside them"""
+    out = set()
+    for a in val:
+        if a[0] in ('list', 'set', 'seq', 'dict', 'kdict') and depth(frozenset([a])) > 2:
+            out.add(('list', normalise(frozenset(leaves(frozenset([a]), set())))))
+        else:
+            out.add(a)
+    return normalise(frozenset(out))
+
+
 def normalise(val):
     """Keep abstract values small: one summary list / dict / token list per value, bounded sets of constants."""
     if len(val) <= 1:
@@ -725,6 +754,7 @@ class Interp:
         self.fn_attrs = {}
         self._rebinds = {}
         self.cached_results = {}
+        self.dc_meta = {}         # (class, field) -> metadata of a dataclass field
         self.last_comp_facts = []
         self.approx_sites = set()  # constructions whose arguments came from a * / ** expansion of unknown shape
         self.arity_mismatch = {}  # call sites where some callee could not take the arguments
@@ -1196,19 +1226,31 @@ class Interp:
                 if 'ClassVar' in ann:
                     continue
                 default, init = None, True
+                fname = b.target.id
                 if b.value is not None:
-                    default = unparse(b.value)
-                    v = b.value
-                    if isinstance(v, ast.Call) and (dotted(v.func) or '').split('.')[-1] == 'field':
-                        default = None
-                        for k in v.keywords:
-                            if k.arg == 'default':
-                                default = unparse(k.value)
-                            elif k.arg == 'default_factory':
-                                default = '({})()'.format(unparse(k.value))
-                            elif k.arg == 'init' and isinstance(k.value, ast.Constant) and k.value.value is False:
-                                init = False
-                out = [x for x in out if x[0] != b.target.id] + [(b.target.id, default, init)]
+                    val = ci.attrs.get(fname)
+                    desc = [a for a in (val or ()) if a[0] == 'libobj' and a[1] == 'dcfield']
+                    hidden = '__dc_{}_{}'.format(ci.name, fname)
+                    if desc and len(desc) == len(val):
+                        d0 = desc[0]
+                        init = d0[4]
+                        self.dc_meta[(ci.name, fname)] = d0[5]
+                        if d0[2] is not None:
+                            self.module.store.vars[hidden] = d0[2]
+                            default = hidden
+                            ci.attrs[fname] = d0[2]
+                        elif d0[3] is not None:
+                            self.module.store.vars[hidden] = d0[3]
+                            default = hidden + '()'
+                            del ci.attrs[fname]
+                        else:
+                            del ci.attrs[fname]
+                    elif val is not None:
+                        self.module.store.vars[hidden] = val
+                        default = hidden
+                    else:
+                        default = unparse(b.value)
+                out = [x for x in out if x[0] != fname] + [(fname, default, init)]
         ci.fields = out
         return out
 
@@ -2368,8 +2410,8 @@ class Interp:
                     self.why.append(('attr', cls, attr))
                 key = (cls, attr)
                 old = self.heap.get(key, BOT)
-                if depth(val) > 4:
-                    raise self.err(node, 'a value of unbounded nesting is stored into {}.{}'.format(cls, attr))
+                if depth(val) > 3:
+                    val = flatten_deep(val)
                 new = join(old, erase_tags(val))
                 if new != old:
                     self.heap[key] = new
@@ -2487,6 +2529,8 @@ class Interp:
             if kind == 'ctypes.int' and attr == 'value':
                 return av(INT_S)
             return av(('bmeth', a, attr))
+        if k == 'kdict' and a[2] == ('dcfield',) and const(attr) in dict(a[1]):
+            return dict(a[1])[const(attr)]
         if k in ('list', 'seq', 'toks', 'dict', 'kdict', 'set', 'str', 'tok', 'c', 'bytes', 'file', 'lines', 'int', 'idx'):
             return av(('bmeth', a, attr))
         if a == EXT or k == 'ext':
@@ -4779,6 +4823,14 @@ class Interp:
         pos = args.pos
         x = pos[0] if pos else None
         if name == 'len':
+            if x is not None and len(x) == 1:
+                a0 = next(iter(x))
+                if a0[0] == 'seq':
+                    return av(const(len(a0[2])))
+                if a0[0] == 'kdict':
+                    return av(const(len(a0[1])))
+                if a0[0] == 'toks' and a0[2] is not None:
+                    return av(const(a0[2]))
             if x is not None:
                 for a in x:
                     if a[0] == 'obj' and a[1] in self.classes:
@@ -5396,7 +5448,23 @@ class Interp:
                 raise self.err(node, 'dataclass() applied to a class by a call')
             return av(('lib', '<dataclass>'))
         if name in ('dataclasses.field',):
-            return args.kw.get('default', av(NONE))
+            init = args.kw.get('init')
+            init_flag = not (init is not None and init == av(const(False)))
+            return av(('libobj', 'dcfield', args.kw.get('default'), args.kw.get('default_factory'), init_flag,
+                       args.kw.get('metadata', av(('kdict', (), None)))))
+        if name == 'dataclasses.fields' and x is not None:
+            out = BOT
+            for a in x:
+                cn = a[1] if a[0] in ('cls', 'obj') else None
+                if cn is None or cn not in self.classes or not self.classes[cn].record:
+                    raise self.err(node, 'dataclasses.fields() of something that is not a record class')
+                descs = []
+                for fname, default, init in self.record_fields(self.classes[cn]):
+                    meta = self.dc_meta.get((base_class(cn), fname), av(('kdict', (), None)))
+                    descs.append(av(('kdict', ((const('name'), av(const(fname))), (const('metadata'), meta), (const('init'), av(const(bool(init)))),
+                                               (const('type'), av(TOP)), (const('default'), av(TOP))), ('dcfield',))))
+                out = join(out, av(('seq', 'tuple', tuple(descs))))
+            return out
         if name in ('itertools.chain', 'itertools.chain.from_iterable'):
             srcs = pos
             if name.endswith('from_iterable') and pos:
